@@ -1186,7 +1186,7 @@ class BareServer():
         Timeout stale connections
         """
         self.servant.serviceConnects()
-        for ca, ix in self.servant.ixes.items():
+        for ca, ix in list(self.servant.ixes.items()):  # ixes changes during iteration
             # check for and handle cutoff connections by client here
 
             if ca not in self.stewards:
@@ -1200,9 +1200,13 @@ class BareServer():
         """
         Service pending requestants and responders
         """
-        for ca, steward in self.stewards.items():
+        for ca, steward in list(self.stewards.items()):  # stewards changes during iteration
             if not steward.waited:
                 steward.requestant.parse()
+
+                if steward.requestant.ended and steward.requestant.errored:
+                    self.closeConnection(ca)  # bad request so give up on connection
+                    continue
 
                 if steward.requestant.ended:
                     steward.requestant.dictify()
